@@ -955,6 +955,10 @@ func (g *g2l) outArg(e ast.Expr) ast.Expr {
 				return id
 			}
 		}
+		// a pointer to an object this function created itself (`p := &T{}; f(.., p)`): the callee fills it in
+		if g.owned[id.Name] {
+			return id
+		}
 	}
 	g.fail(e, "out argument %d of %s is not `&x`", i, callName(c))
 	return nil
